@@ -16,6 +16,8 @@ import json
 
 import mosaik_api_v3
 
+from . import vshape
+
 CTX = None  # the current harness.Run (set by Run.execute)
 
 T_ATTRS = {"attrs": ["mi", "po"]}
@@ -117,7 +119,8 @@ class StubSim(mosaik_api_v3.Simulator):
         self.k += 1
         self.time = time
         self.cur = k
-        self.ctx.ev("B", self.sid, k, time, json.dumps(inputs, sort_keys=True), max_advance)
+        self.ctx.ev("B", self.sid, k, time, json.dumps(self._dec_inputs(inputs), sort_keys=True),
+                    max_advance)
         if self.finalized:
             self.ctx.ev("X", self.sid, "request-after-finalize", "step", k)
         yield from self._fault_point("step", k)
@@ -196,13 +199,32 @@ class StubSim(mosaik_api_v3.Simulator):
         if bad is not None:
             data["time"] = self._bad_value(bad, self.time, None)
         self.ctx.ev("D", self.sid, k, self.time, json.dumps(data, sort_keys=True))
-        return data
+        return self._enc_data(data)
 
     def finalize(self):
         self.finalized += 1
         self.ctx.ev("F", self.sid)
 
     # -- helpers ------------------------------------------------------------
+    def _shape(self):
+        return getattr(self.ctx, "vshape", None)
+
+    def _dec_inputs(self, inputs):
+        sh = self._shape()
+        if not sh:
+            return inputs
+        return vshape.dec_inputs(sh, inputs, self.ctx.sids)
+
+    def _enc(self, token):
+        sh = self._shape()
+        return vshape.enc(sh, token, self.ctx.sids) if sh else token
+
+    def _enc_data(self, data):
+        if not self._shape():
+            return data
+        return {e: ({a: self._enc(v) for a, v in av.items()} if isinstance(av, dict) else av)
+                for e, av in data.items()}
+
     def _bad_value(self, bad, time, nxt):
         kind = bad[0] if isinstance(bad, (list, tuple)) else bad
         if kind == "none":
@@ -241,7 +263,7 @@ class StubSim(mosaik_api_v3.Simulator):
             val = f"{self.sid}{k}s"
             self.ctx.ev("AS", self.sid, k, time, dst_full, attr, val)
             try:
-                yield self.mosaik.set_data({f"{self.sid}.e": {dst_full: {attr: val}}})
+                yield self.mosaik.set_data({f"{self.sid}.e": {dst_full: {attr: self._enc(val)}}})
                 self.ctx.ev("AR", self.sid, k, "set", "ok")
             except Exception as e:  # noqa: BLE001
                 self.ctx.ev("AR", self.sid, k, "set", type(e).__name__, _exc_name(e))
@@ -253,7 +275,7 @@ class StubSim(mosaik_api_v3.Simulator):
             val = f"{self.sid}{k}s"
             self.ctx.ev("AS2", self.sid, k, time, json.dumps(list(dsts)), attr, val)
             try:
-                yield self.mosaik.set_data({f"{self.sid}.e": {d: {attr: val} for d in dsts}})
+                yield self.mosaik.set_data({f"{self.sid}.e": {d: {attr: self._enc(val)} for d in dsts}})
                 self.ctx.ev("AR", self.sid, k, "set", "ok")
             except Exception as e:  # noqa: BLE001
                 self.ctx.ev("AR", self.sid, k, "set", type(e).__name__, _exc_name(e))
@@ -273,6 +295,9 @@ class StubSim(mosaik_api_v3.Simulator):
                 yield from self._fault_point("async", k)
             try:
                 res = yield self.mosaik.get_data({src_full: [attr]})
+                if self._shape():
+                    res = {src: {a: vshape.dec(self._shape(), v, src.split(".")[0], self.ctx.sids)
+                                 for a, v in av.items()} for src, av in res.items()}
                 self.ctx.ev("AR", self.sid, k, "get", "ok", json.dumps(res, sort_keys=True))
             except Exception as e:  # noqa: BLE001
                 self.ctx.ev("AR", self.sid, k, "get", type(e).__name__, _exc_name(e))
